@@ -164,7 +164,7 @@ Fixpoint judge (e:expect) (fin:Z) (outs:list Z) (fout:Z) : Z :=
   | Pred p fls => b2z (p outs && existsb (fun fl => Z.lor fin fl =? fout) fls)
   | Known id req rec =>
       if judge req fin outs fout =? 1 then 1
-      else if judge rec fin outs fout =? 1 then 2 + id else 0
+      else if judge rec fin outs fout =? 1 then 2 + Z.abs id else 0
   end.
 
 (* what to print for a rejected case *)
